@@ -37,7 +37,7 @@ type famScenario struct {
 }
 
 // (decorated names next to their plain twins: a sigil, a dot or a trailing colon is part of the name)
-var famLits = []string{"a", "b", "foo", "__gensym", "__anon", "x9", "#lz", "lz", "?q", "q", "a.b", "c.b", "ab", ".dot", "dot", "k:", "k", "x-y", "A", "a1", "a:", "#a", "b.", "fo", "o"}
+var famLits = []string{"a", "b", "foo", "__gensym", "__anon", "x9", "#lz", "lz", "?q", "q", "a.b", "c.b", "ab", ".dot", "dot", "k:", "k", "x-y", "A", "a1", "a:", "#a", "b.", "fo", "o", "", " ", "a b"}
 var famPrefixes = []string{"__gensym", "__anon", "__loop", "__g", "p"}
 
 func genFamName(r *kernel.RNG) famName {
@@ -388,8 +388,8 @@ func execFamily(body json.RawMessage) *kernel.Result {
 			names := make([]string, 0, len(byName))
 			var dotted []string
 			for n := range byName {
-				if zygo.SymbolRegex.MatchString(n) && !strings.ContainsAny(n, ".:") {
-					names = append(names, n)
+				if zygo.SymbolRegex.MatchString(n) && !strings.ContainsAny(n, ".: \t\n") && n != "" {
+					names = append(names, n) // (only names that script text can spell)
 				}
 				if parts := strings.Split(n, "."); len(parts) == 2 && parts[0] != "" && parts[1] != "" && zygo.SymbolRegex.MatchString(parts[0]) && zygo.SymbolRegex.MatchString(parts[1]) && !strings.Contains(n, ":") {
 					dotted = append(dotted, n)
